@@ -37,19 +37,42 @@ class Project:
 			f.write('\n'.join(cfg) + '\n')
 		os.makedirs(os.path.join(self.dir, 'src'), exist_ok=True)
 
-	def write(self, name: str, text: str) -> None:
+	def write(self, name: str, text: str, mtime: float | None = None) -> None:
 		p = os.path.join(self.dir, 'src', name)
 		os.makedirs(os.path.dirname(p), exist_ok=True)
 		with open(p, 'w') as f:
 			f.write(text)
-		self.tick += 10
-		os.utime(p, (self.tick, self.tick))
+		if mtime is None:
+			self.tick += 10
+			mtime = self.tick
+		os.utime(p, (mtime, mtime))
+
+	def set_cache_enabled(self, enabled: bool) -> None:
+		"""Rewrite config.yml so that the next run uses caching enabled / disabled on the same cache directory."""
+		cfgp = os.path.join(self.dir, 'config.yml')
+		lines = [ln for ln in open(cfgp).read().split('\n') if ln and not ln.startswith('di:') and 'CacheSetting' not in ln]
+		if not enabled:
+			lines += ['di:', '  rogw.tranp.cache.cache.CacheSetting: vprov.cache_off']
+			with open(os.path.join(self.dir, 'vprov.py'), 'w') as f:
+				f.write('from rogw.tranp.cache.cache import CacheSetting\n\ndef cache_off() -> CacheSetting:\n\treturn CacheSetting(basedir=".cache/tranp", enabled=False)\n')
+		with open(cfgp, 'w') as f:
+			f.write('\n'.join(lines) + '\n')
 
 	def run(self, force: bool = False, timeout: int = 120) -> subprocess.CompletedProcess:
 		env = dict(os.environ)
 		env['PYTHONPATH'] = f'{REPO}:{SITE}:{self.dir}'
 		args = [PY313, f'{REPO}/rogw/tranp/bin/transpile.py', '-c', 'config.yml'] + (['-f'] if force else [])
 		return subprocess.run(args, cwd=self.dir, env=env, capture_output=True, text=True, timeout=timeout)
+
+	def run_outcome(self, force: bool = True) -> dict[str, str]:
+		"""Run on an emptied output directory and return {file: body without header}, or {'<error>': ...} when the CLI reports an error
+		(the CLI prints the error and still exits 0, and outputs of earlier runs would otherwise be mistaken for this run's)."""
+		shutil.rmtree(os.path.join(self.dir, 'out'), ignore_errors=True)
+		r = self.run(force=force)
+		text = r.stdout + r.stderr
+		if r.returncode != 0 or 'rogw.tranp.errors.Errors.' in text or 'Traceback (most recent call last)' in text or 'Error: ' in text.split('\n')[-2:][0]:
+			return {'<error>': text[-300:]}
+		return {k: body_without_header(v) for k, v in self.outputs().items()}
 
 	def outputs(self) -> dict[str, str]:
 		out: dict[str, str] = {}
@@ -187,9 +210,8 @@ def history_twin(tier: str, seed: int, skip_transitive: bool = True) -> tuple[in
 					ops.append('clear-cache')
 				if script and op != 'run':
 					continue
-				r = p.run(force=True)
+				warm = p.run_outcome()
 				runs += 1
-				warm = p.outputs() if r.returncode == 0 else {'<error>': r.stderr[-200:]}
 				ops.append('run')
 				# cold oracle: same sources, empty cache, separate project
 				q = Project()
@@ -197,13 +219,12 @@ def history_twin(tier: str, seed: int, skip_transitive: bool = True) -> tuple[in
 					for k, v in state.items():
 						q.write(k, VARIANTS['leaf'][v])
 					q.write('top.py', TOP)
-					rq = q.run(force=True)
+					cold = q.run_outcome()
 					runs += 1
-					cold = q.outputs() if rq.returncode == 0 else {'<error>': rq.stderr[-200:]}
 				finally:
 					q.close()
-				if {k: body_without_header(v) for k, v in warm.items()} != {k: body_without_header(v) for k, v in cold.items()}:
-					fails.append({'history': list(ops), 'state': dict(state), 'what': 'warm run differs from cold run'})
+				if ('<error>' in warm) != ('<error>' in cold) or ('<error>' not in warm and warm != cold):
+					fails.append({'history': list(ops), 'state': dict(state), 'what': 'warm run differs from cold run', 'warm': str(warm)[:300], 'cold': str(cold)[:300]})
 					break
 			# truncation of one cache file
 			files = [f for f in p.cache_files() if f.endswith('.json')]
@@ -216,9 +237,85 @@ def history_twin(tier: str, seed: int, skip_transitive: bool = True) -> tuple[in
 					runs += 1
 					if r.returncode == 0:
 						out = {k: body_without_header(v) for k, v in p.outputs().items()}
-						if out != {k: body_without_header(v) for k, v in cold.items()}:
+						if out != cold:
 							fails.append({'history': ops + [f'truncate {os.path.basename(f)} at {off}', 'run'], 'what': 'run succeeded with other content after a damaged cache file'})
 					open(f, 'wb').write(data)
+		finally:
+			p.close()
+	return runs, fails
+
+
+def cache_scenarios() -> tuple[int, list[dict]]:
+	"""Two scripted histories for C05: (1) an edit that lands in the same whole second as the cached version of the file (the entry
+	cache identity must see it); (2) a run with caching disabled on a cache directory that an enabled run filled (must behave like a
+	disabled run on an empty directory and leave the directory untouched)."""
+	fails: list[dict] = []
+	runs = 0
+
+	def bodies(p: 'Project', r) -> dict:
+		return {k: body_without_header(v) for k, v in p.outputs().items()} if r.returncode == 0 else {'<error>': (r.stdout + r.stderr)[-300:]}
+	lib1 = 'def size() -> int:\n\treturn 1\n'
+	lib2 = 'def size() -> str:\n\treturn "s"\n\ndef twice() -> str:\n\treturn "ss"\n'
+	use = 'from src.lib import size\n\ndef f() -> None:\n\tn = size()\n'
+	# (1) sub-second edit
+	p = Project()
+	try:
+		p.write('lib.py', lib1, mtime=1_700_000_100.25)
+		p.write('use.py', use, mtime=1_700_000_050.0)
+		p.run(force=True)
+		p.write('lib.py', lib2, mtime=1_700_000_100.75)
+		warm = p.run_outcome()
+		p.clear_cache()
+		cold = p.run_outcome()
+		runs += 3
+		if warm != cold:
+			fails.append({'history': ['write lib.py (mtime x.25)', 'run', 'edit lib.py (mtime x.75, same second)', 'run', 'clear-cache', 'run'], 'what': 'warm run after an edit within the same whole second differs from the cold run', 'diff': sorted(k for k in set(warm) | set(cold) if warm.get(k) != cold.get(k))})
+	finally:
+		p.close()
+	# (2) enabled run, then disabled run on the same directory
+	p = Project()
+	try:
+		p.write('lib.py', lib1)
+		p.write('use.py', use)
+		p.run(force=True)
+		before = sorted((f, os.path.getsize(f), os.path.getmtime(f)) for f in p.cache_files())
+		p.set_cache_enabled(False)
+		out1 = p.run_outcome()
+		after = sorted((f, os.path.getsize(f), os.path.getmtime(f)) for f in p.cache_files())
+		p.clear_cache()
+		out2 = p.run_outcome()
+		runs += 3
+		if out1 != out2:
+			fails.append({'history': ['run (caching enabled)', 'disable caching', 'run', 'clear-cache', 'run'], 'what': 'a run with caching disabled depends on what an earlier enabled run left in the cache directory', 'first': str(out1)[:300], 'second': str(out2)[:300]})
+		elif before != after:
+			fails.append({'history': ['run (caching enabled)', 'disable caching', 'run'], 'what': 'a run with caching disabled touched the cache directory'})
+	finally:
+		p.close()
+	return runs, fails
+
+
+def own_edit_regenerates() -> tuple[int, list[dict]]:
+	"""C06 on the real CLI: after a module's own source is edited, a non-forced run regenerates its output (equal to a forced run), also when
+	another listed module has a path that extends this one's (src/net.py next to src/network/client.py, util.py next to util_ext.py) and the
+	longer one is listed first; untouched modules keep their outputs."""
+	fails: list[dict] = []
+	runs = 0
+	pairs = [('net.py', 'network/client.py'), ('util.py', 'util_ext.py'), ('a.py', 'b.py')]
+	for short, long_ in pairs:
+		p = Project()
+		try:
+			p.write(long_, 'def other() -> int:\n\treturn 7\n')
+			p.write(short, 'def size() -> int:\n\treturn 1500\n')
+			first = p.run(force=False)
+			before = p.outputs()
+			p.write(short, 'def size() -> int:\n\treturn 9000\n')
+			p.run(force=False)
+			nonforced = {k: body_without_header(v) for k, v in p.outputs().items()}
+			forced = p.run_outcome(force=True)
+			runs += 3
+			if nonforced != forced:
+				diff = sorted(k for k in set(nonforced) | set(forced) if nonforced.get(k) != forced.get(k))
+				fails.append({'modules': [long_, short], 'history': ['run', f'edit src/{short}', 'run', 'run -f'], 'what': f'after editing src/{short} a non-forced run leaves {diff} different from a forced run', 'nonforced': str({k: nonforced.get(k, '')[-60:] for k in diff})[:300]})
 		finally:
 			p.close()
 	return runs, fails
